@@ -100,5 +100,27 @@ class Prop(c09.Prop):
                                    **scope))
         except Exception as e:
             vs.append(viol('raises', sig, '%s: %r' % (type(e).__name__, e), exc=type(e).__name__, **scope))
-        return result('viol' if vs else 'ok', vs, st, 4, h64('c08', sorted(d.items(), key=str)),
+        # the same content as a file built in memory (no ETFLAG, non-contiguous arrays): write, read,
+        # compare with the source, write again
+        sig = ('roundtrip-hand-built', fmt)
+        for p in (p1, p2):
+            if os.path.exists(p):
+                os.unlink(p)
+        try:
+            fh_ = c09.build_hand(r)
+            cl.write(fmt, fh_, p1)
+            fb = cl.open_mm(fmt, p1, r)
+            for c, det in cl.compare_to_recipe(fb, r):
+                if c in ('grid-header', 'file-header') and fmt not in ('uamiv', 'lateral_boundary'):
+                    continue
+                vs.append(viol('reread-' + c, sig, det, **scope))
+            cl.write(fmt, fb, p2)
+            b1, b2 = open(p1, 'rb').read(), open(p2, 'rb').read()
+            if b1 != b2:
+                i = next((k for k in range(min(len(b1), len(b2))) if b1[k] != b2[k]), min(len(b1), len(b2)))
+                vs.append(viol('rewrite-not-identical', sig, 'second write differs from the first at byte %d '
+                               '(%d vs %d bytes)' % (i, len(b1), len(b2)), **scope))
+        except Exception as e:
+            vs.append(viol('raises', sig, '%s: %r' % (type(e).__name__, e), exc=type(e).__name__, **scope))
+        return result('viol' if vs else 'ok', vs, st, 7, h64('c08', sorted(d.items(), key=str)),
                       h64(raw) if not vs else None)
